@@ -70,3 +70,126 @@ Example ex_static_match :
   /\ sres_direct (spec_lookup (method_patterns (t_roots ex_static_txn) m_get) [] (S2B "/ab/c")) = Some (S2B "/ab/c", [])
   /\ direct_obs (roots_lookup (static_fuel (S2B "/b/c")) (t_roots ex_static_txn) m_get [] (S2B "/b/c") false [] []) = None.
 Proof. vm_compute. repeat split. Qed.
+
+(* ---- stages 2 and 3: + named parameters {name} (full-segment and mid-segment), + suffix catch-all
+   *{name}; backtracking through the skipped-node stack ----
+   invariant pwf: every key is a non-empty sequence of whole tokens (static bytes other than
+   '{' '*', {name}, and a final *{name} only on a leaf without children); sibling keys start with
+   pairwise distinct bytes (so at most one parameter child and one catch-all child per node); a
+   leaf's pattern is the concatenation of the keys on its branch.
+   Fuel bound m2_fuel t = ncost t + 4 (a function of the tree only).
+   [plain t] = no catch-all anywhere in the tree (stage 2); [nostar path] = no '*' byte in the request. *)
+
+(* M1 = M2: the explicit skipped-node stack is the DFS continuation (no side condition) *)
+Theorem C01_M1_eq_M2 : forall t path lazy fuel, pwf [] t -> m2_fuel t <= fuel ->
+  match m2 t path with
+  | Some (l, vals) => found_as (lookup_by_path fuel t path lazy [] []) l (addp lazy [] vals)
+  | None => nodirect2 (lookup_by_path fuel t path lazy [] [])
+  end.
+Proof. exact lbp_eq_m2. Qed.
+Print Assumptions C01_M1_eq_M2.
+
+(* M2 = S *)
+Theorem C01_M2_eq_Spec : forall t host path, pwf [] t -> starts_with "/" (nkey t) = true ->
+  nostar path = true \/ plain t = true ->
+  select_in (map rpat (routes_of_node t)) host path false = res_of [] (m2 t path).
+Proof. exact spec_eq_m2. Qed.
+Print Assumptions C01_M2_eq_Spec.
+
+Theorem C01_param_total : forall t path lazy fuel, pwf [] t -> m2_fuel t <= fuel ->
+  exists n tp pss tpss, lookup_by_path fuel t path lazy [] [] = Found n tp pss tpss.
+Proof. exact lbp_param_total. Qed.
+Print Assumptions C01_param_total.
+
+(* lazy = true (Reverse, Iter.Reverse): same route *)
+Theorem C01_param_lazy_route : forall t host path fuel lazy,
+  pwf [] t -> starts_with "/" (nkey t) = true -> m2_fuel t <= fuel ->
+  nostar path = true \/ plain t = true ->
+  option_map fst (direct_obs (lookup_by_path fuel t path lazy [] [])) =
+  option_map fst (spec_direct (map rpat (routes_of_node t)) host path).
+Proof. exact lbp_param_eq_spec_lazy. Qed.
+Print Assumptions C01_param_lazy_route.
+
+(* the stage reached: M1 = S (route and parameter values) on trees with static text, named
+   parameters and suffix catch-alls.  Stage 2 (plain t): every request path.  Stage 3: request
+   paths without a '*' byte — without that condition the statement is FALSE, see below. *)
+Theorem M1_eq_Spec_partial : forall r m t host path fuel,
+  path_only_root r m t -> pwf [] t -> m2_fuel t <= fuel ->
+  nostar path = true \/ plain t = true ->
+  direct_obs (roots_lookup fuel r m host path false [] []) =
+  sres_direct (spec_lookup (method_patterns r m) host path).
+Proof. exact roots_lookup_param_eq_spec. Qed.
+Print Assumptions M1_eq_Spec_partial.
+
+(* non-vacuity: backtracking is exercised (static child "a" fails, parameter child matches) *)
+Definition ex_fuel : nat := N.to_nat 40000%N.
+Definition ex_param_txn : txn :=
+  build [mk_ri "/a" 1 0; mk_ri "/ab" 2 0; mk_ri "/ab/c" 3 0; mk_ri "/{x}" 4 1; mk_ri "/a/{y}/b" 5 1;
+         mk_ri "/a{z}/c" 6 1; mk_ri "/{x}/d/{w}" 7 2].
+Example ex_param_hyps :
+  path_only_root (t_roots ex_param_txn) m_get (path_root ex_param_txn) /\ pwf [] (path_root ex_param_txn)
+  /\ m2_fuel (path_root ex_param_txn) <= ex_fuel /\ plain (path_root ex_param_txn) = true.
+Proof.
+  split; [|split; [|split]].
+  - exists 0, (Node m_get None [path_root ex_param_txn]). vm_compute. repeat split.
+  - apply pwfb_sound. vm_compute. reflexivity.
+  - apply Nat.leb_le. vm_compute. reflexivity.
+  - vm_compute. reflexivity.
+Qed.
+Definition ex_lookup (p : string) :=
+  direct_obs (roots_lookup ex_fuel (t_roots ex_param_txn) m_get [] (S2B p) false [] []).
+Definition ex_spec (p : string) :=
+  sres_direct (spec_lookup (method_patterns (t_roots ex_param_txn) m_get) [] (S2B p)).
+Example ex_param_match :
+  ex_lookup "/abc" = Some (S2B "/{x}", [(S2B "x", S2B "abc")]) /\ ex_spec "/abc" = ex_lookup "/abc"
+  /\ ex_lookup "/a/q/b" = Some (S2B "/a/{y}/b", [(S2B "y", S2B "q")]) /\ ex_spec "/a/q/b" = ex_lookup "/a/q/b"
+  /\ ex_lookup "/ab/d/e" = Some (S2B "/{x}/d/{w}", [(S2B "x", S2B "ab"); (S2B "w", S2B "e")])
+  /\ ex_spec "/ab/d/e" = ex_lookup "/ab/d/e"
+  /\ ex_lookup "/ab/c" = Some (S2B "/ab/c", []) /\ ex_lookup "/a/q/c" = None /\ ex_spec "/a/q/c" = None.
+Proof. vm_compute. repeat split. Qed.
+
+(* non-vacuity, stage 3: static child, parameter child and catch-all child at the same node *)
+Definition ex_catch_txn : txn :=
+  build [mk_ri "/a/b" 1 0; mk_ri "/a/{y}/c" 2 1; mk_ri "/a/*{w}" 3 1; mk_ri "/{x}" 4 1; mk_ri "/f=*{p}" 5 1].
+Example ex_catch_hyps :
+  path_only_root (t_roots ex_catch_txn) m_get (path_root ex_catch_txn) /\ pwf [] (path_root ex_catch_txn)
+  /\ m2_fuel (path_root ex_catch_txn) <= ex_fuel /\ plain (path_root ex_catch_txn) = false
+  /\ nostar (S2B "/a/b/d") = true.
+Proof.
+  split; [|split; [|split; [|split]]].
+  - exists 0, (Node m_get None [path_root ex_catch_txn]). vm_compute. repeat split.
+  - apply pwfb_sound. vm_compute. reflexivity.
+  - apply Nat.leb_le. vm_compute. reflexivity.
+  - vm_compute. reflexivity.
+  - vm_compute. reflexivity.
+Qed.
+Definition ex_lookup3 (p : string) :=
+  direct_obs (roots_lookup ex_fuel (t_roots ex_catch_txn) m_get [] (S2B p) false [] []).
+Definition ex_spec3 (p : string) :=
+  sres_direct (spec_lookup (method_patterns (t_roots ex_catch_txn) m_get) [] (S2B p)).
+Example ex_catch_match :
+  ex_lookup3 "/a/b/d" = Some (S2B "/a/*{w}", [(S2B "w", S2B "b/d")]) /\ ex_spec3 "/a/b/d" = ex_lookup3 "/a/b/d"
+  /\ ex_lookup3 "/a/q/c" = Some (S2B "/a/{y}/c", [(S2B "y", S2B "q")]) /\ ex_spec3 "/a/q/c" = ex_lookup3 "/a/q/c"
+  /\ ex_lookup3 "/f=/x/y" = Some (S2B "/f=*{p}", [(S2B "p", S2B "/x/y")]) /\ ex_spec3 "/f=/x/y" = ex_lookup3 "/f=/x/y"
+  /\ ex_lookup3 "/a/" = None /\ ex_spec3 "/a/" = None.
+Proof. vm_compute. repeat split. Qed.
+
+(* ---- REFUTED without the side condition: a request byte '*' is looked up as a static edge
+   (node.go:456-463), so a catch-all child is tried BEFORE the parameter child.  Routes /{x} and
+   /*{w}, request /*abc: M1 (and fox) select /*{w}, the specification selects /{x}. ---- *)
+Definition wit_txn : txn := build [mk_ri "/{x}" 1 1; mk_ri "/*{w}" 2 1].
+Theorem M1_eq_Spec_catchall_refuted :
+  exists r m t host path fuel,
+    path_only_root r m t /\ pwf [] t /\ m2_fuel t <= fuel /\
+    direct_obs (roots_lookup fuel r m host path false [] []) = Some (S2B "/*{w}", [(S2B "w", S2B "*abc")]) /\
+    sres_direct (spec_lookup (method_patterns r m) host path) = Some (S2B "/{x}", [(S2B "x", S2B "*abc")]).
+Proof.
+  exists (t_roots wit_txn), m_get, (path_root wit_txn), [], (S2B "/*abc"), ex_fuel.
+  split; [|split; [|split; [|split]]].
+  - exists 0, (Node m_get None [path_root wit_txn]). vm_compute. repeat split.
+  - apply pwfb_sound. vm_compute. reflexivity.
+  - apply Nat.leb_le. vm_compute. reflexivity.
+  - vm_compute. reflexivity.
+  - vm_compute. reflexivity.
+Qed.
+Print Assumptions M1_eq_Spec_catchall_refuted.
